@@ -271,7 +271,7 @@ Proof.
   set (sm' := if kind =? KPrevote then sum_set_prevotes _ _ _ else _).
   set (v2 := bump (with_sum v1 sm')).
   set (s1 := put_view s vid v2).
-  set (s2 := set_rounds s1 _).
+  set (s2 := log_w (set_rounds s1 _) _).
   (* the intermediate state satisfies everything *)
   assert (H2 : INV ih ivs s2).
   { assert (Hpos : pos_eq v v2) by (unfold v2, v1; destruct (kind =? KPrevote); repeat split).
@@ -388,7 +388,7 @@ Proof.
       eapply auth_view_same; [apply same_votes_with_phs|]. apply get_view_auth; exact Ha.
     - unfold s1, put_view, get_view. destruct Hs as [Sv Sn].
       destruct Hvid as [->|[->| ->]]; cbn; (split; [split; assumption|exact Hh]). }
-  set (s2 := set_rounds s1 _).
+  set (s2 := log_w (set_rounds s1 _) _).
   assert (I2 : INV ih ivs s2) by (eapply INV_frame_rounds; [apply frame_set_rounds| | | |exact I1]; reflexivity).
   destruct (negb _); [intros E; inversion E; subst; exact I2|].
   assert (I3 : INV ih ivs (backfill_commit s2 p)).
